@@ -213,4 +213,253 @@ theorem hinv_exitPre {x : State} {t s : Nat} (h : HInv K ext exg x)
   · intro u hu
     rw [hnt] at hu; rw [hlib]; exact a5 u hu
 
+/-! ### a task starts / ends, `lib` changes -/
+
+def LibAexit (l : Lib) (g : Nat) : Prop :=
+  ∃ s ev, l = .aexitChk g s ev ∨ l = .aexitWait g s ev
+
+theorem inAexit_setTask_ne {x : State} {t u g : Nat} {F : Task → Task} (hu : u ≠ t) :
+    InAexit (x.setTask t F) g u ↔ InAexit x g u := by
+  unfold InAexit; simp [hu]
+
+/-- a task record changes, keeping `scope` and `hscope`; `st` and `lib` change as described -/
+theorem hinv_setTask {x : State} (h : HInv K ext exg x) (t : Nat) (F : Task → Task)
+    (h1 : (F (x.tasks t)).scope = (x.tasks t).scope)
+    (h2 : (F (x.tasks t)).hscope = (x.tasks t).hscope)
+    (hst : ext' = some t ∨ (F (x.tasks t)).st = .done ∨
+      (some t ≠ ext ∧ (x.tasks t).st ≠ .done ∧ (x.tasks t).st ≠ .created))
+    (hext : ∀ u, u ≠ t → some u ≠ ext' → some u ≠ ext)
+    (ha : ∀ g, LibAexit (F (x.tasks t)).lib g → g < x.nGroups ∧
+      (x.scopes (x.groups g).scope).entered = true ∧
+      ((x.scopes (x.groups g).scope).host = some t ∨
+        (x.scopes (x.groups g).scope).active = false))
+    (hb : ∀ g, InAexit x g t → LibAexit (F (x.tasks t)).lib g ∨ (x.groups g).exited = true ∨
+      some g = exg)
+    (hexg : ∀ g, some g ≠ exg' → some g ≠ exg ∨ LibAexit (F (x.tasks t)).lib g)
+    (hl : t < x.nTasks ∨ (F (x.tasks t)).lib = .none) :
+    HInv K ext' exg' (x.setTask t F) := by
+  obtain ⟨a1, a2, a3, a4, a5⟩ := h
+  constructor
+  · intro u sc he hsc hd hc
+    by_cases hu : u = t
+    · subst hu
+      simp only [setTask_tasks, upd_same] at hsc hd hc
+      rw [h1] at hsc
+      rcases hst with e | e | ⟨e1, e2, e3⟩
+      · exact absurd e.symm he
+      · exact absurd e hd
+      · exact a1 u sc e1 hsc e2 e3
+    · simp only [setTask_tasks, upd_other _ _ _ _ hu] at hsc hd hc
+      exact a1 u sc (hext u hu he) hsc hd hc
+  · intro sc u p hh hp hn
+    refine a2 sc u p hh hp ?_
+    by_cases hu : u = t
+    · subst hu; simpa [h2] using hn
+    · simpa [hu] using hn
+  · intro u g hi
+    by_cases hu : u = t
+    · subst hu
+      have : LibAexit (F (x.tasks u)).lib g := by
+        obtain ⟨s, ev, hi⟩ := hi
+        exact ⟨s, ev, by simpa using hi⟩
+      exact ha g this
+    · rw [inAexit_setTask_ne hu] at hi
+      exact a3 u g hi
+  · intro g he hbg
+    have mk : LibAexit (F (x.tasks t)).lib g → ∃ u, InAexit (x.setTask t F) g u := by
+      rintro ⟨s, ev, hl⟩
+      exact ⟨t, s, ev, by simpa using hl⟩
+    rcases hexg g he with he' | he'
+    · rcases a4 g he' hbg with h | ⟨u, hu⟩
+      · exact .inl h
+      · by_cases hut : u = t
+        · subst hut
+          rcases hb g hu with h | h | h
+          · exact .inr (mk h)
+          · exact .inl h
+          · exact absurd h he'
+        · exact .inr ⟨u, (inAexit_setTask_ne hut).mpr hu⟩
+    · exact .inr (mk he')
+  · intro u hu
+    by_cases hut : u = t
+    · subst hut
+      rcases hl with h | h
+      · simp only [setTask_nTasks] at hu; omega
+      · simpa using h
+    · simp only [setTask_nTasks] at hu
+      simpa [hut] using a5 u hu
+
+/-! ### group bookkeeping -/
+
+theorem inAexit_setGroup {x : State} {g g' u : Nat} {F : Group → Group} :
+    InAexit (x.setGroup g F) g' u ↔ InAexit x g' u := by
+  unfold InAexit; rfl
+
+theorem hinv_setGroup {x : State} (h : HInv K ext exg x) (g : Nat) (F : Group → Group)
+    (h1 : (F (x.groups g)).scope = (x.groups g).scope)
+    (h2 : (x.groups g).exited = true → (F (x.groups g)).exited = true)
+    (h3 : exg' = some g ∨ (F (x.groups g)).exited = true ∨
+      ((F (x.groups g)).bodyErrs = (x.groups g).bodyErrs ∧ exg' = exg))
+    (hexg : ∀ g', g' ≠ g → some g' ≠ exg' → some g' ≠ exg) :
+    HInv K ext exg' (x.setGroup g F) := by
+  obtain ⟨a1, a2, a3, a4, a5⟩ := h
+  have hsc : ∀ g', ((x.setGroup g F).groups g').scope = (x.groups g').scope := by
+    intro g'
+    by_cases hg : g' = g
+    · subst hg; simp [h1]
+    · simp [hg]
+  constructor
+  · exact a1
+  · exact a2
+  · intro u g' hi
+    rw [inAexit_setGroup] at hi
+    simp only [setGroup_scopes, setGroup_nGroups]
+    rw [hsc]
+    exact a3 u g' hi
+  · intro g' he hb
+    by_cases hg : g' = g
+    · subst hg
+      simp only [setGroup_groups, upd_same] at hb ⊢
+      rcases h3 with e | e | ⟨e1, e2⟩
+      · exact absurd e.symm he
+      · exact .inl e
+      · rw [e1] at hb
+        rcases a4 g' (e2 ▸ he) hb with h | h
+        · exact .inl (h2 h)
+        · exact .inr h
+    · simp only [setGroup_groups, upd_other _ _ _ _ hg] at hb ⊢
+      exact a4 g' (hexg g' hg he) hb
+  · exact a5
+
+/-! ### `_spawn`, `task_done` -/
+
+theorem hinv_newTask {x : State} (h : HInv K ext exg x) (g gs hs : Nat) (sf : Option Nat)
+    (hhost : ∀ s, (x.scopes s).host ≠ some x.nTasks) :
+    HInv K ext exg (newTaskSt x g gs hs sf) := by
+  obtain ⟨a1, a2, a3, a4, a5⟩ := h
+  have hl0 := a5 x.nTasks (Nat.le_refl _)
+  have hia : ∀ g' u, InAexit (newTaskSt x g gs hs sf) g' u ↔ InAexit x g' u := by
+    intro g' u
+    unfold InAexit newTaskSt
+    by_cases hu : u = x.nTasks
+    · subst hu; simp [hl0]
+    · simp [hu]
+  constructor
+  · intro u sc he hsc hd hc
+    by_cases hu : u = x.nTasks
+    · subst hu; simp [newTaskSt] at hc
+    · simp only [newTaskSt, setTask_tasks, upd_other _ _ _ _ hu] at hsc hd hc
+      exact a1 u sc he hsc hd hc
+  · intro sc u p hh hp hn
+    have hu : u ≠ x.nTasks := by rintro rfl; exact hhost sc hh
+    refine a2 sc u p hh hp ?_
+    simpa [newTaskSt, hu] using hn
+  · intro u g' hi
+    rw [hia] at hi
+    exact a3 u g' hi
+  · intro g' he hb
+    rcases a4 g' he hb with h | ⟨u, hu⟩
+    · exact .inl h
+    · exact .inr ⟨u, (hia g' u).mpr hu⟩
+  · intro u hu
+    have h1 : x.nTasks + 1 ≤ u := hu
+    have hne : u ≠ x.nTasks := by omega
+    simpa [newTaskSt, hne] using a5 u (by omega)
+
+/-- `task_done` removes the task from `_task_states` -/
+theorem hinv_clearScope {x : State} (h : HInv K ext exg x) (u : Nat) :
+    HInv K ext exg (x.setTask u
+      (fun y => { y with hasState := false, scope := none, doneCbRun := true })) := by
+  obtain ⟨a1, a2, a3, a4, a5⟩ := h
+  have hia : ∀ g' v, InAexit (x.setTask u
+      (fun y => { y with hasState := false, scope := none, doneCbRun := true })) g' v ↔
+      InAexit x g' v := by
+    intro g' v
+    unfold InAexit
+    by_cases hv : v = u
+    · subst hv; simp
+    · simp [hv]
+  constructor
+  · intro v sc he hsc hd hc
+    by_cases hv : v = u
+    · subst hv; simp at hsc
+    · simp only [setTask_tasks, upd_other _ _ _ _ hv] at hsc hd hc
+      exact a1 v sc he hsc hd hc
+  · intro sc v p hh hp hn
+    refine a2 sc v p hh hp ?_
+    by_cases hv : v = u
+    · subst hv; simpa using hn
+    · simpa [hv] using hn
+  · intro v g' hi
+    rw [hia] at hi; exact a3 v g' hi
+  · intro g' he hb
+    rcases a4 g' he hb with h | ⟨v, hv⟩
+    · exact .inl h
+    · exact .inr ⟨v, (hia g' v).mpr hv⟩
+  · intro v hv
+    by_cases hvu : v = u
+    · subst hvu; simpa using a5 v hv
+    · simpa [hvu] using a5 v hv
+
+/-- `create_task_group()` after the allocation of the group scope -/
+theorem hinv_mkGroup {x : State} (h : HInv K ext exg x) (s : Nat)
+    (hK : ∀ g, K g → g < x.nGroups) (hexg : ∀ g, exg = some g → g < x.nGroups) :
+    HInv K ext exg
+      { x.setGroup x.nGroups (fun _ => { scope := s }) with nGroups := x.nGroups + 1 } := by
+  obtain ⟨a1, a2, a3, a4, a5⟩ := h
+  constructor
+  · exact a1
+  · exact a2
+  · intro u g hi
+    have hi' : InAexit x g u := hi
+    obtain ⟨b1, b2, b3⟩ := a3 u g hi'
+    have hne : g ≠ x.nGroups := by omega
+    refine ⟨by simp only []; omega, ?_⟩
+    simpa [hne] using ⟨b2, b3⟩
+  · intro g he hb
+    by_cases hg : g = x.nGroups
+    · subst hg
+      simp only [setGroup_groups, upd_same] at hb
+      rcases hb with hb | hb
+      · simp at hb
+      · have := hK _ hb; omega
+    · simp only [setGroup_groups, upd_other _ _ _ _ hg] at hb ⊢
+      exact a4 g he hb
+  · exact a5
+
+/-! ### what the invariant is for -/
+
+/-- `__aexit__` of a group that is marked (an exception of the body has been recorded, or `K g`)
+cannot be started (again): the task inside `__aexit__` hosts the group scope, so no other task has
+it as its current scope, and that task itself is inside a library coroutine. -/
+theorem hinv_aexit_disabled {x : State} (h : HInv K none none x) (w : WF x) (g : Nat) (ev : ExcVal)
+    (hk : (x.groups g).bodyErrs ≠ [] ∨ K g) : step x (.aexit g ev) = none := by
+  rw [step_aexit]
+  split
+  · rfl
+  · rename_i t hr
+    split
+    · rfl
+    · rename_i hg
+      exfalso
+      simp only [not_or] at hg
+      obtain ⟨_, hlib, _, hex, hsc⟩ := hg
+      have hlib : (x.tasks t).lib = .none := by simpa using hlib
+      have hex : (x.groups g).exited = false := by simpa using hex
+      have hsc : (x.tasks t).scope = some (x.groups g).scope := by simpa using hsc
+      have hrun := (w.running_spec t).mp hr
+      have hh := h.h1 t _ (by simp) hsc (by rw [hrun]; simp) (by rw [hrun]; simp)
+      rcases h.b1 g (by simp) hk with he | ⟨t0, hi⟩
+      · rw [hex] at he; cases he
+      · obtain ⟨_, _, h3⟩ := h.a1 t0 g hi
+        have hact : (x.scopes (x.groups g).scope).active = true := by
+          rw [← w.host_active, hh]; rfl
+        rcases h3 with h3 | h3
+        · rw [hh] at h3
+          cases h3
+          obtain ⟨s, ev', hi⟩ := hi
+          rw [hlib] at hi
+          rcases hi with hi | hi <;> cases hi
+        · rw [hact] at h3; cases h3
+
 end AnyioModel.Kernel
